@@ -522,3 +522,34 @@ def gen_program(check, mod, prog, templates, pgen, determinism=False, pkgname=No
 def scratch_ctx(info, native_templates=()):
     return {'replay': 'scratch_pkg', 'pkgdir': info['dir'], 'pkgname': info['name'],
             'native_files': [os.path.join(HARNESS, t) for t in native_templates], 'program': info.get('canon')}
+
+
+def setup_programs(check, programs, templates, determinism=False):
+    """Generate code for a dict name -> Program; returns (mod, infos)."""
+    pgen = build_parquetgen(check)
+    if pgen is None:
+        check.finish('n/a')
+    mod = make_scratch_module(check)
+    infos = {}
+    for n, p in programs.items():
+        infos[n] = gen_program(check, mod, p, templates, pgen, determinism=determinism)
+    return mod, infos
+
+
+def run_program_jobs(check, mod, infos, jobs, record=0, native_templates=(), **kw):
+    """Engine run over generated packages; attaches the per-package replay context."""
+    pk = sorted({j['pkg'] for j in jobs})
+    first = len(check.jobs)
+    out = check.engine(mod, pk, {}, jobs, record=record, **kw)
+    for (j, jr, ctx) in check.jobs[first:]:
+        ctx.update(scratch_ctx(infos[j['pkg'].split('/')[-1]], native_templates))
+    return out
+
+
+def replay_main(check, replay, infos, native_templates=()):
+    body = json.load(open(replay))
+    name = body['pkg'].split('/')[-1]
+    ok, out = check.native_replay(replay, scratch_ctx(infos[name], native_templates))
+    log(out[-3000:])
+    log('REPRODUCED' if ok else 'NOT REPRODUCED')
+    sys.exit(1 if ok else 0)
